@@ -117,6 +117,50 @@ def _task_special(_):
             res.count('states')
             res.count('nontrivial')
     res.count('foreign_variants', len(space.FOREIGN_VARIANT_VALUES))
+    # descriptors: the value on the wire is the index into the out-of-band
+    # list, a UINT32 in the requested byte order
+    for sig, refvals in (('h', [5]), ('hh', [7, 9]), ('hhh', [10, 11, 12]),
+                         ('shs', ['a', 3, 'b']), ('ah', [[4, 5, 6]]),
+                         ('(hs)h', [[8, 'x'], 2]), ('a{sh}', [[['k', 11],
+                                                               ['l', 12]]]),
+                         ('yah', [1, []]), ('hxh', [1, 2, 3])):
+        ts = R.parse_sig(sig)
+        tx = R.as_plain(ts, refvals)
+        for le in (True, False):
+            for off in range(8):
+                res.count('evaluations')
+                res.count('transitions', 2)
+                rep = {'dir': 'fds', 'sig': sig, 'values': repr(refvals),
+                       'little': le, 'offset': off}
+                want_fds = []
+                want = R.encode(ts, refvals, off, le, fds=want_fds)
+                try:
+                    oob = []
+                    n, chunks = M.marshal(sig, tx, off, le, oob)
+                    got = b''.join(chunks)
+                    if got != want or oob != want_fds:
+                        res.violation(
+                            '%s/fd-bytes/%s' % (PROP, sig),
+                            'marshal(%r, %r, %d, little=%s) = %s with '
+                            'descriptors %r; the specification gives %s with '
+                            '%r' % (sig, tx, off, le, got.hex(), oob,
+                                    want.hex(), want_fds), rep, size=len(sig))
+                    m, out = M.unmarshal(sig, bytes([CS.FILL]) * off + want,
+                                         off, le, list(want_fds))
+                    if m != len(want) or not R.same(out, tx):
+                        res.violation(
+                            '%s/fd-decode/%s' % (PROP, sig),
+                            'reference encoding of %r under %r (offset %d, '
+                            'little=%s) with descriptors %r decoded to %r'
+                            % (tx, sig, off, le, want_fds, out), rep,
+                            size=len(sig))
+                except Exception as e:
+                    res.violation('%s/fd-raises/%s/%s'
+                                  % (PROP, type(e).__name__, sig),
+                                  'descriptor case %r raised %r' % (sig, e),
+                                  rep, size=len(sig))
+        res.count('states')
+        res.count('nontrivial')
     # the alignment rule in isolation: every type code x offsets 0..15
     codes = dict(R.ALIGN)
     codes['header'] = 8
@@ -161,6 +205,9 @@ def run(ctx):
 
 def replay(data):
     res = core.Result()
+    if data['dir'] == 'fds':
+        res = _task_special(0)
+        return [(s, v['what']) for s, v in res.violations.items()]
     if data['dir'] == 'pad':
         from txdbus import marshal as M
         align = 8 if data['code'] == 'header' else R.ALIGN[data['code']]
